@@ -268,7 +268,16 @@ func main() {
 	}
 
 	body := &hcq.Enc{}
-	nCases := 0
+	nCases, fileStart, nFiles := 0, 0, 0
+	flush := func() {
+		if nCases == fileStart {
+			return
+		}
+		c.WriteCasesV(fmt.Sprintf("cases%d.v", nFiles), hcq.CasesFileTFrom("Model.HttpGate", fileStart, nCases-fileStart, body, "d_case"))
+		nFiles++
+		fileStart = nCases
+		body = &hcq.Enc{}
+	}
 
 	run := func(rs reqSpec) {
 		req, err := parse(rs)
@@ -292,7 +301,13 @@ func main() {
 		queryTok := req.URL.Query().Get("token")
 		carriesValid := hdr == "Bearer "+rightToken || queryTok == rightToken
 		passes := !rs.Token || exempt[req.URL.Path] || carriesValid
-		skipExec := passes && rs.Flags.Pprof && !routedIsRedirect && (routedPattern == "/debug/pprof/profile" || routedPattern == "/debug/pprof/trace")
+		// pprof.Profile and pprof.Trace do run when reached: with the request context already
+		// cancelled they start and stop the profiler without waiting
+		skipExec := false
+		_ = passes
+		if rs.Flags.Pprof && !routedIsRedirect && (routedPattern == "/debug/pprof/profile" || routedPattern == "/debug/pprof/trace") {
+			c.Count("routed-to-pprof-profile-or-trace")
+		}
 
 		var status int
 		var pattern string
@@ -399,6 +414,9 @@ func main() {
 		body.Ref(pattern)
 		body.Bool(status == 404 && len(calls) == 0)
 		nCases++
+		if nCases-fileStart >= 25000 {
+			flush()
+		}
 	}
 
 	// ---- generators ----
@@ -504,9 +522,9 @@ func main() {
 			run(reqSpec{Method: "POST", Target: "/routes/advertise", Auth: a, Flags: flags{true, true, true}, Token: true, Seq: "cache-history"})
 		}
 		// 3. every token presentation on a few paths
-		presPaths := []string{"/agents", "/health", "/routes/advertise"}
+		presPaths := []string{"/agents", "/health"}
 		if c.Thorough() {
-			presPaths = append(presPaths, "/api/topology", "/", "/nothing")
+			presPaths = append(presPaths, "/routes/advertise", "/api/topology", "/", "/nothing")
 		}
 		for _, t := range presPaths {
 			for _, a := range authHeaders {
@@ -537,19 +555,24 @@ func main() {
 						if !tok && (p.a != nil || p.q != "") {
 							continue
 						}
-						for _, s := range spellings {
-							for _, m := range []string{"GET", "POST", "CONNECT", "HEAD"} {
-								run(reqSpec{Method: m, Target: withQuery(s, p.q), Auth: p.a, Flags: f, Token: tok})
+						for i, s := range spellings {
+							run(reqSpec{Method: "GET", Target: withQuery(s, p.q), Auth: p.a, Flags: f, Token: tok})
+							if i%3 == 0 {
+								run(reqSpec{Method: "CONNECT", Target: withQuery(s, p.q), Auth: p.a, Flags: f, Token: tok})
+							}
+							if i < len(bases) {
+								run(reqSpec{Method: "POST", Target: withQuery(s, p.q), Auth: p.a, Flags: f, Token: tok})
+								run(reqSpec{Method: "HEAD", Target: withQuery(s, p.q), Auth: p.a, Flags: f, Token: tok})
 							}
 						}
 					}
 				}
 			}
 			c.Res.Extra["exhaustive"] = true
-			c.Res.Extra["exhaustive_scope"] = "8 flag combinations x token configured/not x 6 token presentations x all path spellings x {GET,POST,CONNECT,HEAD}"
+			c.Res.Extra["exhaustive_scope"] = "8 flag combinations x token configured/not x 6 token presentations x all path spellings x GET (CONNECT for every third spelling, POST and HEAD for the plain paths)"
 		} else {
 			// 5. random product
-			n := c.N(500, 0)
+			n := c.N(300, 0)
 			for i := 0; i < n; i++ {
 				rs := reqSpec{Method: methods[c.Rand.Intn(len(methods))], Flags: allFlags[c.Rand.Intn(8)], Token: c.Rand.Chance(5, 6)}
 				t := spellings[c.Rand.Intn(len(spellings))]
@@ -562,5 +585,5 @@ func main() {
 			}
 		}
 	}
-	c.WriteCasesV("cases.v", hcq.CasesFileT("Model.HttpGate", nCases, body, "d_case"))
+	flush()
 }
